@@ -85,8 +85,27 @@ func TestC11(t *testing.T) {
 	defer o.Close()
 	r := kit.NewRand(kit.Seed() + 11)
 	n := kit.N(60, 700)
+	var prev gcase
 	for i := 0; i < n; i++ {
 		c := gen(r)
+		// pairs of profiles of the SAME curve (peak, deviation, window) at different tick frequencies,
+		// built one after the other in this process, the curve wide enough to have mass at the window's
+		// ends: each profile is its own
+		if i%4 == 2 && c.stddev < c.repeat/3 {
+			c.stddev = (c.repeat / 3 / c.freq) * c.freq
+		}
+		if i%4 == 3 && prev.repeat > 0 {
+			for _, f := range []int64{prev.freq * 2, prev.freq / 2, prev.freq * 5, prev.freq / 5, prev.freq * 10, prev.freq / 10, prev.freq * 3, prev.freq / 3} {
+				if f > 0 && prev.repeat%f == 0 && prev.repeat/f >= 4 && prev.repeat/f <= 3000 && prev.stddev >= f {
+					keepVia := c.viaRate
+					c = prev
+					c.freq, c.viaRate = f, keepVia
+					o.Count("curve", "same curve as the profile before, other tick frequency")
+					break
+				}
+			}
+		}
+		prev = c
 		dist, err := gaussian.NewDistribution(float64(c.peak), float64(c.stddev))
 		if err != nil {
 			continue
